@@ -234,9 +234,17 @@ func AddCanonStress(r *rng.R, w *World) {
 			lo = append(lo, NPPort{Proto: pr, Port: 1, EndPort: cut})
 			hi = append(hi, NPPort{Proto: pr, Port: cut + 1, EndPort: 65535})
 		}
+		named := ing && r.P(0.5) // one of the two also allows a named port: the union is still everything
+		cluster := r.P(0.6)      // and the rules may be entire-cluster rules (exposure analysis keeps their union per pod)
 		for k, ports := range [][]NPPort{lo, hi} {
 			np := NetPol{Ns: wl.Ns, Name: fmt.Sprintf("compl%d", k), PodSel: *SelFor(r, wl.Labels), HasTypes: true}
+			if named && k == 0 {
+				ports = append(ports, NPPort{Proto: rng.Pick(r, Protos), Name: rng.Pick(r, PortNames)})
+			}
 			rule := NPRule{Ports: ports}
+			if cluster {
+				rule.Peers = []NPPeer{{NsSel: &Sel{}}}
+			}
 			if ing {
 				np.Ingress, np.PolicyTypes = []NPRule{rule}, []string{"Ingress"}
 			} else {
